@@ -947,7 +947,7 @@ def check_valid_exact(case):
 @clause("C10.decode_forms", "C10", gen=_gen_cheap, nontrivial=lambda c: True if c else False)
 def check_decode_forms(case):
     """convert_solution decodes an assignment of the labels 0..num_binary_variables-1 to the same well-formed
-    solution whether it is given as dict, list or tuple, and whether it is given in boolean form (spin=False) or as
+    solution whether it is given as dict (in any insertion order), list or tuple, and whether it is given in boolean form (spin=False) or as
     the corresponding spin assignment z = 1 - 2x (spin=True); when the assignment is unambiguous (contains a 0,
     resp. a -1) the `spin` flag is documented to be ignored. Partitions compare as unordered pairs. Non-trivial:
     every instance (all assignments are exercised)."""
@@ -960,6 +960,8 @@ def check_decode_forms(case):
         forms = [("bool dict", dict(enumerate(x)), False), ("bool list", list(x), False),
                  ("bool tuple", tuple(x), False), ("spin dict", dict(enumerate(z)), True),
                  ("spin list", list(z), True), ("spin tuple", tuple(z), True)]
+        forms.append(("bool dict in reversed insertion order", dict(reversed(list(enumerate(x)))), False))
+        forms.append(("spin dict in reversed insertion order", dict(reversed(list(enumerate(z)))), True))
         if 0 in x:
             forms.append(("bool list, spin=True (flag to be ignored)", list(x), True))
         if -1 in z:
